@@ -159,6 +159,31 @@ def whole_state_convergence(ctx, facts):
                           "%s leaves its fixpoint loop on a comparison of a *part* of the state (%s): the part that is not compared "
                           "may still change in that round, and the state that is returned is the one from before the round"
                           % (path.split("::")[-1], partial), where(b, k[1].line))
+    # a solver without any whole-state test: say what it converges on instead
+    for path in SOLVERS:
+        b = facts.body(path)
+        has_whole = False
+        summary = []
+        for header, blocks, backs in cfg.natural_loops(b):
+            for d in sorted(blocks):
+                k = classify_switch(b, d)
+                if not k:
+                    continue
+                leaves = [t for _v, t in b.switch_edges(d) if t not in blocks]
+                if k[0] == "call" and (k[1].path or "").split("::")[-1] in ("eq", "ne"):
+                    st = k[1].self_ty or ""
+                    if "Vec<" in st or "Rc<" in st or st.startswith("[") or "Map<" in st or "HashMap" in st or "BTreeMap" in st:
+                        has_whole = True
+                elif k[0] == "bin" and k[1] in ("Eq", "Ne") and leaves:
+                    ops = [k[2], k[3]]
+                    if all(o[0] == "call" for o in ops):
+                        summary.append((short(ops[0][1].path or "?"), b.line_of_block(d)))
+        if not has_whole:
+            ctx.bad("R06.3", "%s|no-whole-state-convergence-test" % path.split("::")[-1],
+                    "%s has no fixpoint loop that is left on an equality of the complete old and new state%s: equal summaries do not "
+                    "imply equal states (the first round at k starts from the final result of k-1), the loop can stop before the "
+                    "fixpoint is reached - FOLLOW/FIRST sets are incomplete and a conflict is missed"
+                    % (path.split("::")[-1], "; it compares a summary instead (%s)" % summary if summary else ""), where(b))
     ctx.require_floor("R06.3", "convergence_tests", n, 2)
 
 
